@@ -163,7 +163,7 @@ func C09_upgrade_pairs() {
 				roundStatus = 426
 			}
 		case 7: // Sec-WebSocket-Key
-			switch vChoose("seckey", 4) {
+			switch vChoose("seckey", 6) {
 			case 0:
 				dropMask |= 1 << 4
 				roundCompliant = false
@@ -178,6 +178,14 @@ func C09_upgrade_pairs() {
 				roundStatus = 400
 			case 3:
 				keyLine = []byte("SEC-WEBSOCKET-KEY:  " + key + " ")
+			case 4: // sent twice, one of them not 24 characters long: "always refused"
+				keyLine = []byte("Sec-WebSocket-Key: " + key + eol + "Sec-WebSocket-Key: " + key[:23])
+				roundCompliant = false
+				roundStatus = 400
+			case 5:
+				keyLine = []byte("Sec-WebSocket-Key: " + key + "=" + eol + "Sec-WebSocket-Key: " + key)
+				roundCompliant = false
+				roundStatus = 400
 			}
 		case 8: // an unknown header, possibly without a colon
 			if vChoose("extra", 2) == 0 {
